@@ -54,7 +54,7 @@ class SessionRules(Harness):
         out.append({"fam": "caps", "mn": 3, "mh": 1, "rate": "sym", "A": 3, "H": 1, "steps": 1})
         # agents handing in up to two items per consultation: the caps count agents that produced orders
         out.append({"fam": "caps", "mn": 2, "mh": 1, "rate": "1", "A": 3, "H": 1, "steps": 1, "items": 2})
-        out.append({"fam": "caps", "mn": 2, "mh": 2, "rate": "1", "A": 2, "H": 3, "steps": 1, "items": 2})
+        out.append({"fam": "caps", "mn": 1, "mh": 2, "rate": "1", "A": 1, "H": 3, "steps": 1, "items": 2})
         # F2: flags matrix
         flags = [(True, True), (True, False), (False, True), (False, False)]
         for f0 in flags:
